@@ -327,7 +327,7 @@ void reb_read_simulationarchive_from_stream_with_messages(struct reb_simulationa
                     sa->t = NULL;
                     free(sa->offset);
                     sa->offset = NULL;
-                    free(sa);
+                    // sa itself is owned by the caller (python passes its own structure). Do not free it here.
                     *warnings |= REB_SIMULATION_BINARY_ERROR_SEEK;
                     return;
                 }
@@ -379,7 +379,7 @@ void reb_simulationarchive_init_from_buffer_with_messages(struct reb_simulationa
 }
 
 struct reb_simulationarchive* reb_simulationarchive_create_from_file(const char* filename){
-    struct reb_simulationarchive* sa = malloc(sizeof(struct reb_simulationarchive));
+    struct reb_simulationarchive* sa = calloc(1, sizeof(struct reb_simulationarchive));
     enum reb_simulation_binary_error_codes warnings = REB_SIMULATION_BINARY_WARNING_NONE;
     reb_simulationarchive_create_from_file_with_messages(sa, filename, NULL, &warnings);
     if (warnings & REB_SIMULATION_BINARY_ERROR_NOFILE){
@@ -388,6 +388,11 @@ struct reb_simulationarchive* reb_simulationarchive_create_from_file(const char*
         sa = NULL;
     }else{
         reb_input_process_warnings(NULL, warnings);
+        if (warnings & (REB_SIMULATION_BINARY_ERROR_SEEK | REB_SIMULATION_BINARY_ERROR_OLD)){
+            // No snapshot could be read. All pointers in sa have already been freed.
+            free(sa);
+            sa = NULL;
+        }
     }
     return sa;
 }
